@@ -88,6 +88,7 @@ type BlockOpt struct {
 	SupLinks    types.SupLinks     // header supLinks
 	NoRefCheck  bool               // do not fail if the reference ledger rejects the block (mutants)
 	Mutate      func(*types.Block) // applied before the merkle root / signature are computed
+	MutateRoot  func(*types.Block) // applied after the merkle root is set, before signing (validly signed wrong commitments)
 	MutateAfter func(*types.Block) // applied after signing (breaks what it touches)
 }
 
@@ -148,6 +149,9 @@ func (t *Tree) Build(p *Blk, txs []*types.Tx, o BlockOpt) (*Blk, error) {
 		return nil, err
 	}
 	b.TransactionsMerkleRoot = root
+	if o.MutateRoot != nil {
+		o.MutateRoot(b)
+	}
 	if !o.NoSign {
 		k := idx
 		if o.SignWith != nil {
